@@ -1,5 +1,6 @@
 import PPProofs.Lemmas.Threads
 import PPProofs.Lemmas.ThreadsLocks
+import PPProofs.Props.Gen.C15Locks
 /-!
 # C15 — concurrent parsing equals serial parsing
 
@@ -255,46 +256,69 @@ example : (stepsOf s0 (List.replicate 6 1 ++ List.replicate 11 0 ++ List.replica
     some (.done 5, .done 5, [(kA, 5)]) := by decide +kernel
 end Nest
 
-/-! ## both locks, all three modes, nested entry calls: one global acquisition order ⇒ no deadlock
+/-! ## all locks, all three modes, nested entry calls: one global acquisition order ⇒ no deadlock
 
-Model: Part 5 of `PPModel/Mod/Threads.lean` (`Locks`): a thread = the list of its lock operations on
-`recursion_lock` (R) / `packrat_cache_lock` (P), both re-entrant; any number of threads, all schedules. -/
+Model: Part 5 of `PPModel/Mod/Threads.lean` (`Locks`): a thread = the list of its lock operations; locks are
+re-entrant and numbered: 0 = `recursion_lock` (R), 1 = `packrat_cache_lock` (P) - the two class-wide locks of the
+unchanged code - and 2 + i = a lock stored on the i-th element instance (none in the unchanged code: generated facts
+below).  Any number `n` of locks, any number of threads, all schedules. -/
 namespace Locks
 
 /-- **lock_order_no_deadlock**: if every thread acquires a lock it does not already hold only while all locks it
     holds rank strictly below it (for ONE ranking `rank` shared by all threads), releases only what it holds and
     ends holding nothing, then under every schedule, in every reachable state in which some thread has not finished,
     some thread can step. -/
-theorem lock_order_no_deadlock {rank : Lock → Nat} {prog : Tid → List Op} {s : LState}
-    (h0 : ∀ t, ordered rank Held.zero (prog t) = true) (r : LReach (linit prog) s)
+theorem lock_order_no_deadlock {n : Nat} {rank : Nat → Nat} {prog : Tid → List Op} {s : LState}
+    (h0 : ∀ t, ordered n rank Held.zero (prog t) = true) (r : LReach (linit prog) s)
     (hu : ∃ t, s.prog t ≠ []) : ∃ t, (lstep s t).isSome = true :=
   no_stuck_state (lreach_inv r (linit_inv h0)) hu
 
 /-- modes off / packrat: whatever the nesting of `_parseCache` calls and nested entry calls, only P is ever taken,
     so the program is ordered for every ranking -/
-theorem packrat_nested_ordered {rank : Lock → Nat} {p : List Op} (hp : PackratProg p) :
-    ordered rank Held.zero p = true := by
-  have := packrat_ordered (rank := rank) hp Held.zero [] rfl (by simp [ordered, Held.zero])
+theorem packrat_nested_ordered {n : Nat} {rank : Nat → Nat} {p : List Op} (hn : 2 ≤ n) (hp : PackratProg p) :
+    ordered n rank Held.zero p = true := by
+  have := packrat_ordered (rank := rank) hn hp Held.zero [] (fun _ _ => rfl)
+    (by simp only [ordered]; exact noneHeld_of fun _ _ => rfl)
   simpa using this
 
-/-- left-recursion mode: whatever the nesting of `Forward.parseImpl` calls and nested entry calls, the program
-    is ordered for `codeRank` (R before P) -/
-theorem lr_nested_ordered {p : List Op} (hp : LRProg p) : ordered codeRank Held.zero p = true := by
-  have := lr_ordered hp Held.zero [] rfl (by simp [ordered, Held.zero])
+/-- left-recursion mode: whatever the nesting of `Forward.parseImpl` calls (each taking the class-wide R) and
+    nested entry calls, the program is ordered for `codeRank` (R before P) -/
+theorem lr_nested_ordered {n : Nat} {p : List Op} (hn : 2 ≤ n) (hp : LRProg p) :
+    ordered n codeRank Held.zero p = true := by
+  have := lr_ordered hn hp Held.zero [] (fun _ _ => rfl)
+    (by simp only [ordered]; exact noneHeld_of fun _ _ => rfl)
   simpa using this
 
 /-- **nested_entry_no_deadlock**: threads that each run an entry point (`reset_cache()` then the parse) whose parse
-    actions make nested entry calls to any depth never deadlock — in modes off/packrat and in left-recursion mode
-    (the memoisation mode is process-global, so all threads are in the same one). -/
+    actions make nested entry calls to any depth, over grammars with any number of (mutually) recursive Forwards,
+    never deadlock - in modes off/packrat and in left-recursion mode (the memoisation mode is process-global, so all
+    threads are in the same one). -/
 theorem nested_entry_no_deadlock {prog : Tid → List Op} {s : LState}
     (hp : (∀ t, PackratProg (prog t)) ∨ (∀ t, LRProg (prog t))) (r : LReach (linit prog) s)
     (hu : ∃ t, s.prog t ≠ []) : ∃ t, (lstep s t).isSome = true := by
   rcases hp with hp | hp
-  · exact lock_order_no_deadlock (rank := codeRank) (fun t => packrat_nested_ordered (hp t)) r hu
-  · exact lock_order_no_deadlock (rank := codeRank) (fun t => lr_nested_ordered (hp t)) r hu
+  · exact lock_order_no_deadlock (n := 2) (rank := codeRank)
+      (fun t => packrat_nested_ordered (Nat.le_refl 2) (hp t)) r hu
+  · exact lock_order_no_deadlock (n := 2) (rank := codeRank)
+      (fun t => lr_nested_ordered (Nat.le_refl 2) (hp t)) r hu
+
+/-! ### tie to the live objects (generated facts, PPProofs/Props/Gen/C15Locks.lean) -/
+
+/-- the lock `Forward.parseImpl` of the i-th Forward of a grammar takes, according to the live objects: the
+    class-wide `ParserElement.recursion_lock` iff `Forward().recursion_lock is ParserElement.recursion_lock` and no
+    element instance stores a lock of its own -/
+def forwardLock (i : Nat) : Nat :=
+  if Gen.forwardUsesClassRecursionLock && Gen.instanceLocks == 0 then R else F i
+
+/-- **forward_lock_is_class_wide**: the shape `LRProg.forward` (acquire R) is the shape of the current source -/
+theorem forward_lock_is_class_wide (i : Nat) : forwardLock i = R := by
+  simp [forwardLock, Gen.forwardUsesClassRecursionLock, Gen.instanceLocks]
+
+/-- **class_locks_are_two**: `ParserElement` and its subclasses define exactly the two locks of the model -/
+theorem class_locks_are_two : Gen.classLocks = ["packrat_cache_lock", "recursion_lock"] := by decide
 
 namespace Ex
-open Op Lock
+open Op
 
 /-- packrat: `record.parse_string(..)` whose action calls `numbers.parse_string(..)` (selftest C15-4 demo):
     reset; _parseCache(record){ cget; action: reset; _parseCache(numbers){cget; cput}; cput } -/
@@ -327,23 +351,24 @@ def entry4 : List Op := [acq R] ++ reset ++ [rel R]
 def recordProg4 : List Op := entry4 ++ [acq P, tau] ++ entry4 ++ [acq P, tau, tau, rel P, tau, rel P]
 def numbersProg4 : List Op := entry4 ++ [acq P, tau, tau, rel P]
 
-theorem two_orders_unorderable (rank : Lock → Nat) : ordered rank Held.zero recordProg4 = false := by
-  cases h : ordered rank Held.zero recordProg4 with
+theorem range2 : List.range 2 = [0, 1] := rfl
+theorem range4 : List.range 4 = [0, 1, 2, 3] := rfl
+
+theorem two_orders_unorderable (rank : Nat → Nat) : ordered 2 rank Held.zero recordProg4 = false := by
+  cases h : ordered 2 rank Held.zero recordProg4 with
   | false => rfl
   | true =>
-    simp [recordProg4, entry4, reset, ordered, lowerHeld, Held.zero, Held.inc, Held.dec] at h
+    simp [recordProg4, entry4, reset, ordered, lowerHeld, noneHeld, range2, Held.zero, Held.inc, Held.dec, R, P] at h
     omega
 
-/-- ... and two threads reach a state in which neither has finished and neither can step: thread 0 is inside its
-    packrat parse (holds P) and waits for R in the nested entry, thread 1 holds R in its entry and waits for P. -/
-theorem two_orders_deadlock : ∃ s, LReach (linit (progOf [recordProg4, numbersProg4])) s ∧
-    (∃ t, s.prog t ≠ []) ∧ ∀ t, lstep s t = none := by
-  cases h : lrun (linit (progOf [recordProg4, numbersProg4])) [0, 0, 0, 0, 0, 0, 0, 0, 1] with
-  | none => exact absurd h (by decide)
+/-- turn a decided run into the statement "a reachable state in which nobody can step" (threads `0`, `1`) -/
+theorem deadlock_of_run {pa pb : List Op} {sched : List Tid}
+    (hf : (lrun (linit (progOf [pa, pb])) sched).map
+      (fun s => ((lstep s 0).isNone, (lstep s 1).isNone, (s.prog 0).isEmpty)) = some (true, true, false)) :
+    ∃ s, LReach (linit (progOf [pa, pb])) s ∧ (∃ t, s.prog t ≠ []) ∧ ∀ t, lstep s t = none := by
+  cases h : lrun (linit (progOf [pa, pb])) sched with
+  | none => rw [h] at hf; cases hf
   | some s =>
-    have hf : (lrun (linit (progOf [recordProg4, numbersProg4])) [0, 0, 0, 0, 0, 0, 0, 0, 1]).map
-        (fun s => ((lstep s 0).isNone, (lstep s 1).isNone, (s.prog 0).isEmpty)) = some (true, true, false) := by
-      decide
     rw [h] at hf
     simp only [Option.map_some, Option.some.injEq, Prod.mk.injEq] at hf
     refine ⟨s, lrun_reach _ _ _ _ (.refl _) h, ⟨0, fun e => by simp [e] at hf⟩, fun t => ?_⟩
@@ -353,6 +378,32 @@ theorem two_orders_deadlock : ∃ s, LReach (linit (progOf [recordProg4, numbers
     | t + 2 =>
       have : s.prog (t + 2) = [] := lrun_prog_nil _ _ _ h (t + 2) (by simp [linit, progOf])
       simp [lstep, this]
+
+/-- ... and two threads reach a state in which neither has finished and neither can step: thread 0 is inside its
+    packrat parse (holds P) and waits for R in the nested entry, thread 1 holds R in its entry and waits for P. -/
+theorem two_orders_deadlock : ∃ s, LReach (linit (progOf [recordProg4, numbersProg4])) s ∧
+    (∃ t, s.prog t ≠ []) ∧ ∀ t, lstep s t = none :=
+  deadlock_of_run (sched := [0, 0, 0, 0, 0, 0, 0, 0, 1]) (by decide)
+
+/-- Shape of selftest change C15-6 (one lock per `Forward` instance instead of the class-wide R): the acquisition
+    order follows the grammar traversal.  `stmt := 'do' block | ..`, `block := '{' stmt* '}'`; thread 0 enters at
+    `stmt` (lock F 0, then F 1 for `block`), thread 1 at `block` (F 1, then F 0).  No ranking orders both ... -/
+def stmtProg : List Op := reset ++ [acq (F 0), tau, acq (F 1), tau, acq (F 0), tau, rel (F 0), rel (F 1), rel (F 0)]
+def blockProg : List Op := reset ++ [acq (F 1), tau, acq (F 0), tau, acq (F 1), tau, rel (F 1), rel (F 0), rel (F 1)]
+
+theorem per_forward_locks_unorderable (rank : Nat → Nat) :
+    (ordered 4 rank Held.zero stmtProg && ordered 4 rank Held.zero blockProg) = false := by
+  cases h : (ordered 4 rank Held.zero stmtProg && ordered 4 rank Held.zero blockProg) with
+  | false => rfl
+  | true =>
+    simp [stmtProg, blockProg, reset, ordered, lowerHeld, noneHeld, range4, Held.zero, Held.inc, Held.dec, P, F]
+      at h
+    omega
+
+/-- ... and the two threads deadlock: each holds the lock of its own entry rule and waits for the other's -/
+theorem per_forward_locks_deadlock : ∃ s, LReach (linit (progOf [stmtProg, blockProg])) s ∧
+    (∃ t, s.prog t ≠ []) ∧ ∀ t, lstep s t = none :=
+  deadlock_of_run (sched := [0, 0, 0, 0, 0, 0, 1, 1, 1, 1, 1, 1]) (by decide)
 end Ex
 
 end Locks
